@@ -210,6 +210,13 @@ def gate():
              ('json', 'tool.main'), ('wsgiref', 'simple_server.demo_app')]          # a LOADED package + a dotted type name that starts with a sub-module that is not loaded
     import json as _json_pkg, wsgiref as _wsgiref_pkg
     fails = []; n = 0
+    # names that a LOADED module exports lazily (PEP 562 module __getattr__): getattr(module, name) runs that hook, which typically imports a sub-module
+    for mname_, m_ in sorted(sys.modules.items()):
+        if m_ is not None and mname_.split('.')[0] == 'taskiq' and '__getattr__' in vars(m_):
+            names += [(mname_, a_) for a_ in list(getattr(m_, '__all__', [])) if a_ not in vars(m_)]
+    for warm in (0, 1):          # warm-up: whatever the first load imports lazily inside pydantic/taskiq is loaded before anything is measured
+        try: (TaskiqResult.model_validate if warm else __import__('taskiq.compat', fromlist=['model_validate']).model_validate.__call__)(*( [{'is_err': True, 'return_value': None, 'execution_time': 0.0, 'error': {'exc_type': 'ValueError', 'exc_message': ['w'], 'exc_module': 'builtins', 'exc_cause': None, 'exc_context': None, 'exc_suppress_context': False}}] if warm else [TaskiqResult, {'is_err': True, 'return_value': None, 'execution_time': 0.0, 'error': {'exc_type': 'NoSuch', 'exc_message': ['w'], 'exc_module': 'no.such.module', 'exc_cause': None, 'exc_context': None, 'exc_suppress_context': False}}]))
+        except BaseException: pass
     for mod, typ in names:
         for nesting in ('root', 'cause', 'context'):
             for args in ((), ('echo pwned',), (1, 2)):
@@ -228,7 +235,7 @@ def gate():
                     else: res = TaskiqResult.model_validate(data).error
                 except BaseException as ex: err = ex
                 if TRAPPED: pr.append(f"C20: loading ({mod}, {typ}, args={args}) at {nesting} level CALLED a non-exception: {TRAPPED[:2]}")
-                new = {m for m in set(sys.modules) - before if not m.startswith(('pydantic', 'taskiq'))}
+                new = {m for m in set(sys.modules) - before if not m.startswith('pydantic')}
                 if new: pr.append(f"C20: loading ({mod}, {typ}) imported modules {sorted(new)[:4]}")
                 if err is not None:
                     from taskiq.exceptions import SecurityError
